@@ -183,7 +183,8 @@ impl<'a> Request<'a> {
                 Ok(x)
             }
             FunctionCode::WriteMultipleCoils => {
-                let range = AddressRange::parse(cursor)?;
+                let range = AddressRange::parse(cursor)?
+                    .limited_count(crate::constants::limits::MAX_WRITE_COILS_COUNT)?;
                 // don't care about the count, validated b/c all bytes are consumed
                 cursor.read_u8()?;
                 Ok(Request::WriteMultipleCoils(WriteCoils::new(
@@ -192,7 +193,8 @@ impl<'a> Request<'a> {
                 )))
             }
             FunctionCode::WriteMultipleRegisters => {
-                let range = AddressRange::parse(cursor)?;
+                let range = AddressRange::parse(cursor)?
+                    .limited_count(crate::constants::limits::MAX_WRITE_REGISTERS_COUNT)?;
                 // don't care about the count, validated b/c all bytes are consumed
                 cursor.read_u8()?;
                 Ok(Request::WriteMultipleRegisters(WriteRegisters::new(
